@@ -2,9 +2,11 @@ package streamfilter
 
 import (
 	"fmt"
+	lunarMessages "lunar/engine/messages"
 	streamconfig "lunar/engine/streams/config"
 	internaltypes "lunar/engine/streams/internal-types"
 	publictypes "lunar/engine/streams/public-types"
+	streamtypes "lunar/engine/streams/types"
 	"strings"
 )
 
@@ -51,7 +53,12 @@ func (s *c03Stream) GetType() publictypes.StreamType {
 	return publictypes.StreamTypeRequest
 }
 func (s *c03Stream) DoesHeaderValueMatch(k, v string) bool {
-	return k == "x-k" && s.hasHeader && s.header == v
+	if !s.hasHeader {
+		return false
+	}
+	// the real request type decides whether the header value matches
+	req := streamtypes.NewRequest(lunarMessages.OnRequest{Headers: map[string]string{"x-k": s.header}})
+	return req.DoesHeaderValueMatch(k, v)
 }
 func (s *c03Stream) GetRequest() publictypes.TransactionI  { return s.txn }
 func (s *c03Stream) GetResponse() publictypes.TransactionI { return s.txn }
@@ -86,6 +93,8 @@ func (c c03Cfg) filter(name string) *streamconfig.Filter {
 		f.StatusCode = []int{200}
 	case 5:
 		f.QueryParams = []publictypes.KeyValue{{Key: "q", Value: "1"}}
+	case 6:
+		f.StatusCode = []int{500}
 	}
 	return f
 }
@@ -103,8 +112,15 @@ func VerifC03Select() {
 		pool = [][]string{c03Patterns[0], c03Patterns[6], c03Patterns[5], c03Patterns[7]}
 		nPat = len(pool)
 	}
+	quals := []int{0, 1, 2, 3, 4, 5, 6}
+	if verifParam("qualset", 0) == 1 {
+		quals = []int{0, 4, 6, 3} // none, status 200, status 500, header
+		if nQual > len(quals) {
+			nQual = len(quals)
+		}
+	}
 	for i := range cfgs {
-		cfgs[i] = c03Cfg{pat: pool[verifChoose(fmt.Sprintf("f%d_pat", i), nPat)], qual: verifChoose(fmt.Sprintf("f%d_qual", i), nQual)}
+		cfgs[i] = c03Cfg{pat: pool[verifChoose(fmt.Sprintf("f%d_pat", i), nPat)], qual: quals[verifChoose(fmt.Sprintf("f%d_qual", i), nQual)]}
 	}
 	// the flow set is unordered (the load order is chosen separately): skip mirrored pairs
 	for i := 1; i < nFlows; i++ {
@@ -192,11 +208,14 @@ func VerifC03Select() {
 			case 2:
 				return st.method == "POST"
 			case 3:
-				return st.isResp || (st.hasHeader && st.header == "v1")
+				// header values are compared case-insensitively (strings.EqualFold in the request type)
+				return st.isResp || (st.hasHeader && strings.EqualFold(st.header, "v1"))
 			case 4:
 				return !st.isResp || st.txn.status == 200
 			case 5:
 				return st.isResp || (st.txn.hasQuery && st.txn.query == "1")
+			case 6:
+				return !st.isResp || st.txn.status == 500
 			}
 			return true
 		}
